@@ -42,42 +42,45 @@ package denco
 //@ assigns \nothing
 //@ loop 0 invariant start0 <= start && start <= len(path) && forall k int :: start0 <= k && k < start ==> path[k] != '/' && path[k] != '#'
 
-// pdepth(da, x): ghost - the number of parameters on the way from the root to cell x. wf(da) is the shape
+// reach(da, x): ghost - cell x is reached from the root (cell 1) by following edges; pdepth(da, x): ghost - the
+// number of parameters on the way from the root to a reached cell x (the cells behind '#' and '*' edges hold a
+// node index instead of a BASE and are not counted as reached). wf(da) is the shape
 // Build leaves behind (assumed here; it held on every array built at design time): following a literal
 // edge keeps pdepth, following a ':' or '*' edge adds one, a '#' edge leads to a cell whose BASE is the
 // index of a node with exactly pdepth parameter names, and a wildcard cell has its '*' edge.
 //@ logic pdepth(*doubleArray, int) int
+//@ logic reach(*doubleArray, int) bool
 // (the quantified variable k is the position of the cell in the backing array, offof(da.bc) + x, so that
 // the triggers contain no arithmetic)
 //@ spec cellAt(da, k) := elems(da.bc)[k]
 //@ spec inCells(da, k) := offof(da.bc) <= k && k < offof(da.bc) + len(da.bc)
 //@ spec edgeK(da, k, c) := nextIndex(Base(cellAt(da, k)), c)
-//@ spec wf(da) := da != nil && 2 <= len(da.bc) && len(da.bc) < 4294967296 && 1 <= len(da.node) && pdepth(da, 1) == 0 && wfEdges(da) && wfWild(da) && wfSingle(da)
-//@ spec wfEdges(da) := forall k int, c int @pat(edgeK(da, k, c)) :: inCells(da, k) && 1 <= c && c < 256 && edgeK(da, k, c) < len(da.bc) && Check(da.bc[edgeK(da, k, c)]) == c ==> (c != 58 && c != 42 && c != 35 ==> pdepth(da, edgeK(da, k, c)) == pdepth(da, k - offof(da.bc))) && (c == 58 || c == 42 ==> pdepth(da, edgeK(da, k, c)) == pdepth(da, k - offof(da.bc)) + 1) && (c == 35 ==> leafOK(da, edgeK(da, k, c), pdepth(da, k - offof(da.bc))))
+//@ spec wf(da) := da != nil && 2 <= len(da.bc) && len(da.bc) < 4294967296 && 1 <= len(da.node) && reach(da, 1) && pdepth(da, 1) == 0 && wfEdges(da) && wfWild(da) && wfSingle(da)
+//@ spec wfEdges(da) := forall k int, c int @pat(edgeK(da, k, c)) :: inCells(da, k) && reach(da, k - offof(da.bc)) && 1 <= c && c < 256 && edgeK(da, k, c) < len(da.bc) && Check(da.bc[edgeK(da, k, c)]) == c ==> (c != 42 && c != 35 ==> reach(da, edgeK(da, k, c))) && (c != 58 && c != 42 && c != 35 ==> pdepth(da, edgeK(da, k, c)) == pdepth(da, k - offof(da.bc))) && (c == 58 ==> pdepth(da, edgeK(da, k, c)) == pdepth(da, k - offof(da.bc)) + 1) && (c == 35 ==> leafOK(da, edgeK(da, k, c), pdepth(da, k - offof(da.bc))))
 //@ spec leafOK(da, y, n) := Base(da.bc[y]) < len(da.node) && da.node[Base(da.bc[y])] != nil && len(da.node[Base(da.bc[y])].paramNames) == n
-//@ spec wfSingle(da) := forall k int @pat(IsSingleParam(cellAt(da, k))) :: inCells(da, k) && IsSingleParam(cellAt(da, k)) && edgeK(da, k, 58) < len(da.bc) ==> Check(da.bc[edgeK(da, k, 58)]) == 58
-//@ spec wfWild(da) := forall k int @pat(IsWildcardParam(cellAt(da, k))) :: inCells(da, k) && IsWildcardParam(cellAt(da, k)) ==> edgeK(da, k, 42) < len(da.bc) && leafOK(da, edgeK(da, k, 42), pdepth(da, k - offof(da.bc)) + 1)
+//@ spec wfSingle(da) := forall k int @pat(IsSingleParam(cellAt(da, k))) :: inCells(da, k) && reach(da, k - offof(da.bc)) && IsSingleParam(cellAt(da, k)) && edgeK(da, k, 58) < len(da.bc) ==> Check(da.bc[edgeK(da, k, 58)]) == 58
+//@ spec wfWild(da) := forall k int @pat(IsWildcardParam(cellAt(da, k))) :: inCells(da, k) && reach(da, k - offof(da.bc)) && IsWildcardParam(cellAt(da, k)) ==> edgeK(da, k, 42) < len(da.bc) && leafOK(da, edgeK(da, k, 42), pdepth(da, k - offof(da.bc)) + 1)
 
 //@ func (*doubleArray).lookup
 //@ watch AP = call (baseCheck).IsAnyParam
-//@ requires wf(da) && 0 <= idx && idx < len(da.bc) && len(params) == pdepth(da, idx)
+//@ requires wf(da) && 0 <= idx && idx < len(da.bc) && reach(da, idx) && len(params) == pdepth(da, idx)
 //@ ensures [C05:arity] result2 ==> result0 != nil && len(result1) == len(result0.paramNames)
 //@ ensures [C05:notfound] !result2 ==> result0 == nil && len(result1) == 0
 //@ assigns comp:F!middleware/denco.Param!Name, comp:F!middleware/denco.Param!Value
-//@ loop 0 invariant 0 <= i && i <= len(path) && 0 <= idx && idx < len(da.bc) && pdepth(da, idx) == len(params) && (indices == nil || fresh(indices)) && elems(da.bc) == old(elems(da.bc)) && elems(da.node) == old(elems(da.node))
-//@ loop 0 invariant forall j int :: 0 <= j && j < len(indices) ==> 0 <= indices[j] && ediv(indices[j], 4294967296) <= len(path) && emod(indices[j], 4294967296) < len(da.bc) && pdepth(da, emod(indices[j], 4294967296)) == len(params)
+//@ loop 0 invariant 0 <= i && i <= len(path) && 0 <= idx && idx < len(da.bc) && reach(da, idx) && pdepth(da, idx) == len(params) && (indices == nil || fresh(indices)) && elems(da.bc) == old(elems(da.bc)) && elems(da.node) == old(elems(da.node))
+//@ loop 0 invariant forall j int :: 0 <= j && j < len(indices) ==> 0 <= indices[j] && ediv(indices[j], 4294967296) <= len(path) && emod(indices[j], 4294967296) < len(da.bc) && reach(da, emod(indices[j], 4294967296)) && pdepth(da, emod(indices[j], 4294967296)) == len(params)
 // (completeness of the backtracking, as far as it is local to lookup: no parameter-capable position of the literal walk is lost)
 //@ loop 0 invariant calls(AP) == i
 //@ loop 0 invariant forall n int :: 0 <= n && n < i && ret(AP,n,0) ==> exists j int @try(len(indices)-1) :: 0 <= j && j < len(indices) && ediv(indices[j], 4294967296) == n
 //@ loop 1 invariant -1 <= j && j < len(indices) && (indices == nil || fresh(indices)) && elems(da.bc) == old(elems(da.bc)) && elems(da.node) == old(elems(da.node))
-//@ loop 1 invariant forall k int :: 0 <= k && k < len(indices) ==> 0 <= indices[k] && ediv(indices[k], 4294967296) <= len(path) && emod(indices[k], 4294967296) < len(da.bc) && pdepth(da, emod(indices[k], 4294967296)) == len(params)
+//@ loop 1 invariant forall k int :: 0 <= k && k < len(indices) ==> 0 <= indices[k] && ediv(indices[k], 4294967296) <= len(path) && emod(indices[k], 4294967296) < len(da.bc) && reach(da, emod(indices[k], 4294967296)) && pdepth(da, emod(indices[k], 4294967296)) == len(params)
 
 // Router.Lookup: a path equal to a parameter-free pattern returns that pattern's value; otherwise the trie
 // decides, and a match carries exactly one value per parameter name of the matched pattern.
 //@ func (*Router).Lookup
 //@ watch LK = call (*doubleArray).lookup
 //@ requires rt != nil
-//@ assumes rt.param != nil && wf(rt.param) && (len(rt.param.node) > 1 ==> rt.SizeHint >= 0)
+//@ assumes rt.param != nil && len(rt.param.node) >= 1 && (len(rt.param.node) > 1 ==> wf(rt.param) && rt.SizeHint >= 0)
 //@ ensures [C05:static] in(path, rt.static) ==> found && data == rt.static[path] && params == nil && calls(LK) == 0
 //@ ensures [C05:trie] !in(path, rt.static) && len(rt.param.node) > 1 ==> calls(LK) == 1 && arg(LK,0,0) == rt.param && arg(LK,0,1) == path && arg(LK,0,3) == 1 && found == ret(LK,0,2)
 //@ ensures [C05:arity] found && !in(path, rt.static) ==> ret(LK,0,0) != nil && data == ret(LK,0,0).data && len(params) == len(ret(LK,0,0).paramNames) && forall i int :: 0 <= i && i < len(params) ==> params[i].Name == ret(LK,0,0).paramNames[i]
